@@ -8,7 +8,9 @@ from vlib.core import VectorEngine
 ASSIGN = {"none": "${v}: {val};", "global": "${v}: {val} !global;", "default": "${v}: {val} !default;",
           "null": "${v}: null;", "inc": "${v}: ${v} + 100;"}
 FLOW = ("if", "each", "for", "while")
-BIND = ("each", "for", "mixin", "function", "content")
+BIND = ("each", "for", "mixin", "function", "content", "lmixin", "lmixind", "lfunctiond")
+LOCALDEF = ("lmixin", "lmixind", "lfunctiond")
+FNKINDS = ("function", "lfunctiond")
 
 
 def match(prog, i):
@@ -48,7 +50,7 @@ def render_prog(prog):
                 m = match(prog, i)
                 kind = t["arg"]
                 var = t["var"] if t["var"] != "-" else None
-                infn = fn or kind == "function"
+                infn = fn or kind in FNKINDS
                 body = block(i + 1, m, infn, ind + 1 if kind not in ("mixin", "function") else 1)
                 if kind == "rule":
                     out += [pad + "a {"] + body + [pad + "}"]
@@ -67,7 +69,18 @@ def render_prog(prog):
                     out += [pad + f"{w}: 0 !global;", pad + f"@while {w} < 2 {{"] + body + \
                            [pad + f"  {w}: {w} + 1 !global;", pad + "}"]
                 elif kind == "lmixin":
-                    out += [pad + f"@mixin lm{pc} {{"] + body + [pad + "}", pad + f"@include lm{pc};"]
+                    if var:      # declared in place, the argument passed explicitly
+                        out += [pad + f"@mixin lm{pc}(${var}) {{"] + body + [pad + "}", pad + f"@include lm{pc}(5);"]
+                    else:
+                        out += [pad + f"@mixin lm{pc} {{"] + body + [pad + "}", pad + f"@include lm{pc};"]
+                elif kind == "lmixind":
+                    # declared in place, the parameter takes its default (the include passes nothing)
+                    sig = f"(${var}: 5)" if var else "()"
+                    out += [pad + f"@mixin lm{pc}{sig} {{"] + body + [pad + "}", pad + f"@include lm{pc};"]
+                elif kind == "lfunctiond":
+                    sig = f"(${var}: 6)" if var else "()"
+                    out += [pad + f"@function lf{pc}{sig} {{"] + body + [pad + "  @return 0;", pad + "}",
+                            pad + "$acc: (s,) !global;", pad + f"o {{ c: lf{pc}(); w: inspect($acc); }}"]
                 elif kind == "mixin":
                     if var:
                         top.extend([f"@mixin gm{pc}(${var}) {{"] + body + ["}"])
@@ -145,7 +158,7 @@ class C16(VectorEngine):
     trace = ("Trace_Scope", "Trace_Scope.cfg")
     spec_op = "Scope!Ideal"
     rule = ("Programs generated by the builder actions of MC_Scope.tla: flat sequences of assignments (none/!global/!default/null/"
-            "$v: $v + 100), reads and open/close of blocks (rule, @media, @supports, @if, @each, @for, @while, mixin defined in place, "
+            "$v: $v + 100), reads and open/close of blocks (rule, @media, @supports, @if, @each, @for, @while, mixin / function declared in place with the parameter passed or taking its default, "
             "mixin/function defined at top level, @content block; loop variables / parameters optionally named like the tested variable), "
             "bounded-exhaustive in the total number of statements; non-trivial = at least one block or flagged assignment and a defined "
             "ideal observable; distinct = distinct program. Flow B: seeded random programs with 2 variables, up to 14 statements and depth 4, "
@@ -204,12 +217,13 @@ class C16(VectorEngine):
         prog, stack = [], []
 
         def can_open(k):
-            if "function" in stack and k not in FLOW:
+            if set(stack) & set(FNKINDS) and k not in FLOW:
                 return False
-            if k == "lmixin" and not set(stack) <= {"rule", "media", "atrule"}:
+            if k in LOCALDEF and not set(stack) <= {"rule", "media", "atrule"}:
                 return False
             return True
-        kinds = ["rule", "media", "atrule", "if", "each", "for", "while", "lmixin", "mixin", "function", "content"]
+        kinds = ["rule", "rule", "media", "atrule", "if", "each", "for", "while", "lmixin", "lmixind", "lfunctiond", "mixin", "function",
+                 "content", "contentm"]
         while True:
             room = maxlen - len(prog) - len(stack)
             last = prog[-1]["op"] if prog else "none"
